@@ -35,6 +35,7 @@ pub struct FnSig {
     pub params: Vec<(String, Type)>,
     pub ret: Option<Type>,
     pub has_self: bool,
+    pub is_async: bool,
 }
 
 #[derive(Default)]
@@ -65,7 +66,7 @@ fn sig_of(sig: &syn::Signature) -> FnSig {
         syn::ReturnType::Default => None,
         syn::ReturnType::Type(_, t) => Some((**t).clone()),
     };
-    FnSig { params, ret, has_self }
+    FnSig { params, ret, has_self, is_async: sig.asyncness.is_some() }
 }
 
 impl Index {
